@@ -1,5 +1,5 @@
 (* Model/C01Run.v - case type and checker evaluated on harness-generated cases (C01) *)
-From ReqV Require Export Lib.Bytes Model.Url Model.H1Req.
+From ReqV Require Export Lib.Bytes Model.Url Model.H1Req Model.H2Body.
 
 Inductive c01_case :=
 (* url.PathEscape / url.QueryEscape of v, and url.PathUnescape / url.QueryUnescape of v *)
@@ -9,6 +9,9 @@ Inductive c01_case :=
           (obs : option (bytes * (bytes * bytes)))
 (* a whole request through the real client, observed at a recording origin *)
 | ReqCase (proto : nat) (a : areq) (obs : req_obs)
+(* HTTP/2 body framing: the (size, EOF-with-data) schedule of the body reads and the DATA frames
+   (length, END_STREAM) the peer received; the observed lengths are the allowances *)
+| H2BodyCase (reads : list (nat * bool)) (frames : list (nat * bool))
 with req_obs :=
 | OErr                                                      (* the call failed *)
 | OH1 (head : bytes) (chunked body_same no_extra : bool)    (* raw head; body compared by the harness *)
@@ -70,4 +73,8 @@ Definition c01_check (c : c01_case) : bool :=
       | _, _ => false
       end
   | ReqCase proto a obs => req_check proto a obs
+  | H2BodyCase reads frames =>
+      let rs := map (fun r => (repeat x00 (fst r), snd r)) reads in
+      let fs := h2_body_frames rs (map fst frames) in
+      list_eqb (fun f o => Nat.eqb (length (fst f)) (fst o) && Bool.eqb (snd f) (snd o)) fs frames
   end.
